@@ -69,7 +69,7 @@ pub fn install_guards(path: &str, hang_secs: u64) {
     CRASH_FD.store(fd, Ordering::SeqCst);
     for s in [libc::SIGSEGV, libc::SIGABRT, libc::SIGBUS, libc::SIGILL, libc::SIGFPE] {
         unsafe {
-            libc::signal(s, on_signal as usize);
+            libc::signal(s, on_signal as *const () as usize);
         }
     }
     std::thread::spawn(move || {
@@ -180,8 +180,7 @@ pub struct Found {
     pub msg: String,
 }
 
-/// Exhaustive enumeration of the property's small-scope space over `threads` workers.
-pub fn run_enum(prop: Prop, thorough: bool, threads: usize) -> (Stats, Option<Found>, usize) {
+pub fn enum_units(prop: Prop, thorough: bool) -> Vec<(usize, usize, usize)> {
     let mut units: Vec<(usize, usize, usize)> = Vec::new();
     for n in prop.caps(thorough) {
         if n == 0 {
@@ -194,13 +193,20 @@ pub fn run_enum(prop: Prop, thorough: bool, threads: usize) -> (Stats, Option<Fo
             }
         }
     }
+    units
+}
+
+/// Exhaustive enumeration of the property's small-scope space over `threads` workers.
+pub fn run_enum(prop: Prop, thorough: bool, threads: usize) -> (Stats, Option<Found>, Vec<u64>) {
+    let units = enum_units(prop, thorough);
+    let unit_digests: Mutex<Vec<(usize, u64)>> = Mutex::new(Vec::new());
     let next = AtomicUsize::new(0);
     let fail_at = AtomicUsize::new(usize::MAX);
     let found: Mutex<Vec<Found>> = Mutex::new(Vec::new());
     let total = Mutex::new(Stats::default());
     std::thread::scope(|s| {
         for t in 0..threads {
-            let (units, next, fail_at, found, total) = (&units, &next, &fail_at, &found, &total);
+            let (units, next, fail_at, found, total, unit_digests) = (&units, &next, &fail_at, &found, &total, &unit_digests);
             s.spawn(move || {
                 set_worker(t);
                 let mut st = Stats::default();
@@ -211,6 +217,7 @@ pub fn run_enum(prop: Prop, thorough: bool, threads: usize) -> (Stats, Option<Fo
                     }
                     let (n, start, len) = units[u];
                     let items = prop.enum_cases(n, start, len, thorough);
+                    let mut ud = 0u64;
                     for (i, item) in items.iter().enumerate() {
                         let res = match std::panic::catch_unwind(std::panic::AssertUnwindSafe(|| exec_item(prop, item))) {
                             Ok(r) => r,
@@ -223,6 +230,7 @@ pub fn run_enum(prop: Prop, thorough: bool, threads: usize) -> (Stats, Option<Fo
                             Ok(r) => {
                                 st.note(prop, item, &r.runs);
                                 st.digest = st.digest.wrapping_add(r.digest.wrapping_mul(case_hash(&item.case) | 1));
+                                ud = ud.wrapping_mul(0x100000001b3) ^ r.digest;
                             }
                             Err((case, msg)) => {
                                 fail_at.fetch_min(u, Ordering::SeqCst);
@@ -231,6 +239,7 @@ pub fn run_enum(prop: Prop, thorough: bool, threads: usize) -> (Stats, Option<Fo
                             }
                         }
                     }
+                    unit_digests.lock().unwrap().push((u, ud));
                 }
                 set_current(None);
                 total.lock().unwrap().merge(st);
@@ -239,7 +248,9 @@ pub fn run_enum(prop: Prop, thorough: bool, threads: usize) -> (Stats, Option<Fo
     });
     let mut f = found.into_inner().unwrap();
     f.sort_by_key(|x| x.order);
-    (total.into_inner().unwrap(), f.into_iter().next(), units.len())
+    let mut ud = unit_digests.into_inner().unwrap();
+    ud.sort();
+    (total.into_inner().unwrap(), f.into_iter().next(), ud.into_iter().map(|x| x.1).collect())
 }
 
 /// proptest histories: `cases` sequences split over `threads` runners with seeds derived from
@@ -281,10 +292,13 @@ pub fn run_prop(prop: Prop, cases: u32, max_ops: usize, seed: u64, threads: usiz
                         }
                     };
                     match res {
-                        Ok(flags) => {
+                        Ok((flags, dig)) => {
                             if !failed.get() {
                                 let item = Item { case, kinds: vec![] };
                                 let h = case_hash(&item.case);
+                                let mut stb = st.borrow_mut();
+                                stb.digest = stb.digest.wrapping_add(dig.wrapping_mul(h | 1));
+                                drop(stb);
                                 st.borrow_mut().note(prop, &item, &[(h, flags)]);
                             }
                             Ok(())
